@@ -228,6 +228,16 @@ func httpProxyDial(dialer proxy.Dialer, network, addr, proxyAddr, auth string) (
 	if strings.ContainsAny(addr, "\r\n") {
 		return nil, fmt.Errorf("proxy dial target address contains cr or lf: %q", addr)
 	}
+	if addr == "" {
+		return nil, errors.New("proxy dial target address is empty")
+	}
+	for i := 0; i < len(addr); i++ {
+		// Whitespace and control characters cannot be part of a request target:
+		// they would change how the proxy splits the CONNECT request line.
+		if c := addr[i]; c <= ' ' || c == 0x7f {
+			return nil, fmt.Errorf("proxy dial target address contains whitespace or control characters: %q", addr)
+		}
+	}
 
 	conn, err := dialer.Dial(network, proxyAddr)
 	if err != nil {
